@@ -23,7 +23,7 @@ Definition fold_of (flags : N) : bool := N.eqb flags 2.      (* re.IGNORECASE *)
 
 (* Python's \s on str patterns, for the code points that occur in the generated strings *)
 Definition is_ws (c : N) : bool :=
-  existsb (N.eqb c) [9; 10; 11; 12; 13; 32; 28; 29; 30; 31; 133; 160]%N.
+  existsb (N.eqb c) [9; 10; 11; 12; 13; 32; 28; 29; 30; 31; 133; 160; 8232; 8233]%N.
 Definition first_is (f : N -> bool) (s : str) : bool := match s with c :: _ => f c | [] => false end.
 
 (* patterns: 0 = "a", 1 = "^ab", 2 = "b+", 3 = "\S+", 4 = "\s+" (the flag IGNORECASE changes nothing for these two), 5 = "(?i)ab" *)
